@@ -50,6 +50,23 @@ def gate(ofA, wa, ofB, wb):
   return None
 
 
+def diverged(obsA, wa, obsB=None, wb=None, vmax=1e6, amax=1e10):
+  """True if the compared world of either execution has left the regime in which float32 results can be compared:
+  non-finite state or |qvel| > vmax or |qacc| > amax (a numerically unstable model / step size, e.g. cubic damping under
+  an explicit integrator).  There every reordered sum differs at O(1): nothing can be judged, the world is inconclusive."""
+  for obs, w in ((obsA, wa), (obsB, wb)):
+    if obs is None:
+      continue
+    for k, lim in (("qpos", 1e8), ("qvel", vmax), ("qacc", amax)):
+      v = obs.get(k)
+      if v is None:
+        continue
+      x = np.asarray(v[w], dtype=np.float64)
+      if x.size and (not np.all(np.isfinite(x)) or float(np.abs(x).max()) > lim):
+        return True
+  return False
+
+
 def snap_obs(d, fields=OBS_FIELDS):
   out = {}
   for k in fields:
